@@ -328,7 +328,12 @@ func RaggedMaps(sel int) *Val {
 		}
 		in := Obj(nil)
 		for i := 0; i < n; i++ {
-			in.O["k"+string(rune('a'+i))] = Int(v)
+			key := "k" + string(rune('a'+i))
+			if sel%2 == 1 {
+				// odd shapes: the key sets of the elements are disjoint
+				key += strconv.Itoa(len(out.A))
+			}
+			in.O[key] = Int(v)
 			v++
 		}
 		out.A = append(out.A, in)
